@@ -10,10 +10,12 @@
    Copeland (raw and second order), minimax, Schulze, ranked pairs, Kemeny-Young (C05_nobody_dropped_full: the whole
    clause); Smith efficiency of Copeland (raw and second order), Schulze (by the number of path-wins), ranked pairs
    (three scorers) and Kemeny-Young, also for a reported tie (Proofs/SmithEff_proofs.v).  The run-off hybrids
-   (Benham, Tideman alternative; Model/Hybrids.v, Proofs/Hybrids_proofs.v, end of this file): for every ranked profile
-   a Condorcet winner of its pairwise dictionary is returned alone, the winner of Tideman alternative lies in the
-   Smith set, the winner of Benham lies in the Smith set once a tie in the elimination is refused (refuted for the
-   elimination step of the pinned tree), restriction of the ballots = restriction of the dictionary. *)
+   (Benham, Tideman alternative; Model/Hybrids.v, Proofs/Hybrids_proofs.v, Proofs/HybridTiers_proofs.v, end of this file):
+   for every ranked profile a Condorcet winner of its pairwise dictionary is returned alone, the first winner of Tideman
+   alternative lies in the Smith set and - with the repaired tiers - the winner of every tier in the Smith set of the
+   candidates left, the winner of Benham lies in the Smith set once a tie in the elimination is refused (refuted for the
+   elimination step of the pinned tree), a candidate that stands alone is elected, restriction of the ballots = restriction
+   of the dictionary. *)
 From Coq Require Import ZArith List Arith.
 From VL Require Import Prelude.PyDict Model.GetNBest Model.Condorcet Proofs.Condorcet_proofs Proofs.CopelandMono_proofs Proofs.SmithCopeland_proofs Proofs.Minimax_proofs Proofs.Schulze_proofs.
 Import ListNotations.
@@ -357,12 +359,19 @@ Proof.
 Qed.
 
 (* ------------------------------------------------------------------ the Condorcet-runoff hybrids
-   Benham and Tideman alternative (votelib/evaluate/sequential.py L629-725; Model/Hybrids.v, proofs Proofs/Hybrids_proofs.v)
-   on ranked profiles with truncation and shared ranks, integer weights.  [wf_votes]: no candidate twice on a ballot, no
-   negative weight.  [pairwise] = RankedToCondorcetVotes(unranked_at_bottom=True), [subset_votes] = SubsettedVotes(RankedSubsetter).
-   [fx = false]: the elimination step as written on the pinned tree (a Tie object of eliminate_one is used as a candidate);
-   [fx = true]: with fixes/C05-hybrid-elimination-tie.diff (a tie among the candidates to eliminate is refused). *)
-From VL Require Import Model.Convert Model.Hybrids Proofs.Hybrids_proofs.
+   Benham and Tideman alternative (votelib/evaluate/sequential.py; Model/Hybrids.v, proofs Proofs/Hybrids_proofs.v,
+   Proofs/TidemanIndex_proofs.v, Proofs/HybridTiers_proofs.v) on ranked profiles with truncation and shared ranks, integer weights.
+   [wf_votes]: no candidate twice on a ballot, no negative weight.  [pairwise] = RankedToCondorcetVotes(unranked_at_bottom=True),
+   [subset_votes] = SubsettedVotes(RankedSubsetter).  Three flags say which repairs the modelled code has (false = as written on
+   the pinned tree):
+   [fx]  fixes/C05-hybrid-elimination-tie.diff  - a tie among the candidates to eliminate is refused instead of being used as a candidate;
+   [sc]  fixes/C05-hybrid-single-candidate.diff - a candidate that stands alone is elected, a round without any pairwise contest
+         has everybody in its winner set (instead of IndexError);
+   [tr]  fixes/C05-tideman-tiers.diff           - the tiers of TidemanAlternative after the first run on the votes restricted to
+         the still eligible candidates (instead of TypeError). *)
+From VL Require Import Model.Convert Model.STV Model.Hybrids Proofs.Hybrids_proofs Proofs.ShapeElim_proofs Proofs.TidemanIndex_proofs Proofs.HybridTiers_proofs.
+Close Scope nat_scope.
+Open Scope Z_scope.
 
 (* restricting the ballots to a set of candidates restricts the pairwise dictionary to that set: the counts between
    members of the set are unchanged, and nobody outside the set is left in the dictionary *)
@@ -375,53 +384,97 @@ Theorem C05_subset_candidates : forall (S : list C) (votes : rvotes) (x : C),
   In x (candidates (pairwise (subset_votes S votes))) -> In x S /\ In x (cands_of votes).
 Proof. intros S votes x H. apply subset_cands. apply candidates_pairwise_in. exact H. Qed.
 
-(* a Condorcet winner of the profile's pairwise dictionary is returned alone by both hybrids, whichever elimination step
-   the code has (no elimination round is entered: the Smith set is {c}) *)
-Theorem C05_cw_benham : forall (fx : bool) (votes : rvotes) (c : C),
-  wf_votes votes = true -> is_cw (pairwise votes) c -> benham fx votes = H_ok [Cand c].
+(* a Condorcet winner of the profile's pairwise dictionary is returned alone by both hybrids, whichever repairs the code has
+   (no elimination round is entered: the Smith set is {c}) *)
+Theorem C05_cw_benham : forall (fx sc : bool) (votes : rvotes) (c : C),
+  wf_votes votes = true -> is_cw (pairwise votes) c -> benham fx sc votes = H_ok [Cand c].
 Proof. exact cw_benham. Qed.
 
-Theorem C05_cw_tideman : forall (fx : bool) (votes : rvotes) (c : C),
-  wf_votes votes = true -> is_cw (pairwise votes) c -> tideman_alt fx votes 1 = H_ok [Cand c].
+Theorem C05_cw_tideman : forall (fx sc tr : bool) (votes : rvotes) (c : C),
+  wf_votes votes = true -> is_cw (pairwise votes) c -> tideman_alt fx sc tr votes 1 = H_ok [Cand c].
 Proof. exact cw_tideman. Qed.
 
-(* Smith containment.  Tideman alternative: whatever the elimination step does (fx), for every seat count, a plain winner
-   lies in the Smith set of the ORIGINAL profile - after the first round only members of that set are left on the ballots *)
-Theorem C05_smith_tideman : forall (fx : bool) (votes : rvotes) (n : nat) (c : C),
-  wf_votes votes = true -> tideman_alt fx votes n = H_ok [Cand c] ->
+(* Smith containment.  Tideman alternative: whichever repairs the code has, for every seat count, the FIRST winner lies in
+   the Smith set of the profile - after the first round only members of that set are left on the ballots *)
+Theorem C05_smith_tideman : forall (fx sc tr : bool) (votes : rvotes) (n : nat) (c : C) (rest : list (res C)),
+  wf_votes votes = true -> pairwise votes <> [] -> tideman_alt fx sc tr votes n = H_ok (Cand c :: rest) ->
   In c (smith_schwartz (pairwise votes) true).
 Proof. exact smith_tideman. Qed.
 
+(* ... and with all repairs the winner of EVERY tier lies in the Smith set of the candidates that are left: the i-th winner
+   belongs to every dominating set D of the candidates not elected before it - D non-empty, every member of D beats every
+   remaining candidate outside D in the pairwise dictionary of the ORIGINAL profile ([dominating], [remaining]: Proofs/HybridTiers_proofs.v);
+   the Smith set is the smallest of these sets.  Candidates left without any pairwise contest among them are all undominated. *)
+Theorem C05_smith_tideman_tiers : forall (votes : rvotes) (n : nat) (ws : list C) (i : nat) (w : C) (D : list C),
+  wf_votes votes = true -> cands_of votes <> [] -> (1 <= n)%nat ->
+  tideman_alt true true true votes n = H_ok (map Cand ws) -> nth_error ws i = Some w ->
+  dominating (pairwise votes) (remaining (cands_of votes) (firstn i ws)) D -> In w D.
+Proof.
+  intros votes n ws i w D Hwf Hne Hn H Hi HD. destruct (tideman_tiers_smith votes n ws Hwf Hne Hn H) as (_ & _ & _ & Hs).
+  exact (Hs i w Hi D HD).
+Qed.
+
+(* the model's own reading of the same fact for the first tier: the set get_winner_set computes *)
+Theorem C05_tideman_first_in_winner_set : forall (fx sc tr : bool) (votes : rvotes) (n : nat) (c : C) (rest : list (res C)),
+  wf_votes votes = true -> tideman_alt fx sc tr votes n = H_ok (Cand c :: rest) -> In c (winner_set sc votes).
+Proof.
+  intros fx sc tr votes n c rest Hwf H. destruct (tideman_first fx sc tr votes n _ H) as (w & rest' & E & Et). injection E as <- _.
+  exact (tier_in_winner_set fx sc _ votes c Hwf Et).
+Qed.
+
 (* Benham: a plain winner lies in the Smith set of the original profile (invariant: a member of the Smith set is still on the
    ballots - if the only one left were eliminated it would beat everybody else left and be their Condorcet winner) *)
-Definition C05_smith_benham_full_statement (fx : bool) : Prop :=
+Definition C05_smith_benham_full_statement (fx sc : bool) : Prop :=
   forall (votes : rvotes) (c : C),
     wf_votes votes = true -> pairwise votes <> [] ->
-    benham fx votes = H_ok [Cand c] -> In c (smith_schwartz (pairwise votes) true).
+    benham fx sc votes = H_ok [Cand c] -> In c (smith_schwartz (pairwise votes) true).
 
-Theorem C05_smith_benham : C05_smith_benham_full_statement true.
-Proof. exact smith_benham. Qed.
+Theorem C05_smith_benham : forall sc : bool, C05_smith_benham_full_statement true sc.
+Proof. intros sc votes c. exact (smith_benham sc votes c). Qed.
 
 (* the pinned tree: B and A tie for the third place among A, B, C, D; the Tie object is no candidate, both are dropped at once,
    C beats D and wins although the Smith set is {A, B} (A = 1 ... E = 5; known finding C05-hybrid-elimination-tie) *)
 Definition C05_benham_witness : rvotes :=
   [([IP 2%positive; IP 1%positive; IP 3%positive; IP 5%positive], 2); ([IP 1%positive; IP 2%positive], 2);
    ([IP 3%positive], 3); ([IP 4%positive], 3)].
-Theorem C05_smith_benham_refuted : ~ C05_smith_benham_full_statement false.
+Theorem C05_smith_benham_refuted : forall sc : bool, ~ C05_smith_benham_full_statement false sc.
 Proof.
-  intros H. specialize (H C05_benham_witness 3%positive).
+  intros sc H. specialize (H C05_benham_witness 3%positive).
   assert (Hin : In 3%positive (smith_schwartz (pairwise C05_benham_witness) true)).
-  { apply H; [vm_compute; reflexivity|vm_compute; discriminate|vm_compute; reflexivity]. }
+  { apply H; [vm_compute; reflexivity|vm_compute; discriminate|destruct sc; vm_compute; reflexivity]. }
   vm_compute in Hin. destruct Hin as [Hin|[Hin|[]]]; discriminate Hin.
 Qed.
 
-(* the fuel of the model's elimination loops always suffices: every round removes at least one candidate from the ballots *)
-Theorem C05_hybrid_fuel : forall (fx : bool) (votes : rvotes) (n : nat),
-  wf_votes votes = true -> benham fx votes <> H_fuel /\ tideman_alt fx votes n <> H_fuel.
-Proof. intros fx votes n Hwf. split; [exact (benham_fuel fx votes Hwf)|exact (tideman_fuel fx votes n Hwf)]. Qed.
+(* a candidate that stands alone is elected by both hybrids (all repairs), however many seats are asked for; on the code
+   without the repair both raise IndexError (C08_shape_hybrids_single_candidate_refuted) *)
+Theorem C05_single_candidate : forall (votes : rvotes) (c : C), cands_of votes = [c] ->
+  benham true true votes = H_ok [Cand c] /\ forall n, (1 <= n)%nat -> tideman_alt true true true votes n = H_ok [Cand c].
+Proof.
+  intros votes c E. pose proof (cands_single votes c E) as EK. split.
+  - rewrite (benham_single true votes c EK). reflexivity.
+  - intros n Hn. exact (tideman_single votes n c EK Hn).
+Qed.
+
+(* the repair for profiles without a pairwise contest changes no answer on a profile that has one (Tideman, one seat:
+   every round of the tier keeps a contest, Proofs/TidemanIndex_proofs.v) resp. two candidates (Benham) *)
+Theorem C05_single_candidate_repair_conservative : forall (tr : bool) (votes : rvotes),
+  wf_votes votes = true -> pairwise votes <> [] ->
+  tideman_alt true true tr votes 1 = tideman_alt true false tr votes 1 /\ benham true true votes = benham true false votes.
+Proof.
+  intros tr votes Hwf Hne. split; [exact (tideman_repair_conservative tr votes Hwf Hne)|].
+  exact (benham_repair_conservative votes Hwf (arc_two votes Hwf Hne)).
+Qed.
+
+(* the fuel of the model's elimination / tier loops always suffices: every round removes at least one candidate from the ballots,
+   every tier one from the eligible set *)
+Theorem C05_hybrid_fuel : forall (fx sc tr : bool) (votes : rvotes) (n : nat),
+  wf_votes votes = true -> benham fx sc votes <> H_fuel /\ tideman_alt fx sc tr votes n <> H_fuel.
+Proof. intros fx sc tr votes n Hwf. split; [exact (benham_fuel fx sc votes Hwf)|exact (tideman_fuel fx sc tr votes n Hwf)]. Qed.
 
 (* non-vacuity: a three-candidate cycle above a fourth candidate, no Condorcet winner; both hybrids go through an elimination
-   round and elect a member of the Smith set {1, 2, 3}; the witness of the refutation is repaired by the fix (refusal) *)
+   round and elect a member of the Smith set {1, 2, 3}; with all repairs Tideman fills two, three, four (and "five") seats tier by
+   tier (the second tier is the contest 2 > 3 > 4, the last one a single candidate); the witness of the refutation is repaired by
+   the fix (refusal); {1, 2, 3} is a dominating set of the four candidates, {2} one of the three left after 1 is elected *)
 Definition C05_hybrid_example : rvotes :=
   [([IP 1%positive; IP 2%positive; IP 3%positive; IP 4%positive], 4); ([IP 2%positive; IP 3%positive; IP 1%positive; IP 4%positive], 3);
    ([IP 3%positive; IP 1%positive; IS [2%positive; 4%positive]], 2)].
@@ -429,11 +482,23 @@ Example C05_hybrid_example_runs :
   wf_votes C05_hybrid_example = true /\ pairwise C05_hybrid_example <> [] /\
   condorcet_winner (pairwise C05_hybrid_example) = [] /\
   smith_schwartz (pairwise C05_hybrid_example) true = [1%positive; 2%positive; 3%positive] /\
-  benham true C05_hybrid_example = H_ok [Cand 1%positive] /\ benham false C05_hybrid_example = H_ok [Cand 1%positive] /\
-  tideman_alt true C05_hybrid_example 1 = H_ok [Cand 1%positive] /\
-  benham true C05_benham_witness = H_nie /\ benham false C05_benham_witness = H_ok [Cand 3%positive] /\
+  benham true true C05_hybrid_example = H_ok [Cand 1%positive] /\ benham false false C05_hybrid_example = H_ok [Cand 1%positive] /\
+  tideman_alt true true true C05_hybrid_example 1 = H_ok [Cand 1%positive] /\
+  tideman_alt true true true C05_hybrid_example 2 = H_ok [Cand 1%positive; Cand 2%positive] /\
+  tideman_alt true true true C05_hybrid_example 4 = H_ok [Cand 1%positive; Cand 2%positive; Cand 3%positive; Cand 4%positive] /\
+  tideman_alt true true true C05_hybrid_example 5 = H_ok [Cand 1%positive; Cand 2%positive; Cand 3%positive; Cand 4%positive] /\
+  tideman_alt true false true C05_hybrid_example 4 = H_index /\ tideman_alt true true false C05_hybrid_example 2 = H_type /\
+  benham true true C05_benham_witness = H_nie /\ benham false false C05_benham_witness = H_ok [Cand 3%positive] /\
   smith_schwartz (pairwise C05_benham_witness) true = [2%positive; 1%positive].
 Proof. vm_compute. repeat split; try reflexivity. discriminate. Qed.
+
+Example C05_hybrid_example_dominating :
+  dominating (pairwise C05_hybrid_example) (remaining (cands_of C05_hybrid_example) []) [1%positive; 2%positive; 3%positive] /\
+  dominating (pairwise C05_hybrid_example) (remaining (cands_of C05_hybrid_example) [1%positive]) [2%positive].
+Proof.
+  split; (split; [discriminate|split; [intros x Hx; vm_compute; vm_compute in Hx; tauto|]]); intros a b Ha Hb Hnb; vm_compute in Hb;
+    repeat (destruct Ha as [<-|Ha]; [repeat (destruct Hb as [<-|Hb]; [try (vm_compute; reflexivity); exfalso; apply Hnb; cbn; tauto|]); destruct Hb|]); destruct Ha.
+Qed.
 
 Print Assumptions C05_cw_copeland.
 Print Assumptions C05_copeland_score.
@@ -475,6 +540,10 @@ Print Assumptions C05_subset_candidates.
 Print Assumptions C05_cw_benham.
 Print Assumptions C05_cw_tideman.
 Print Assumptions C05_smith_tideman.
+Print Assumptions C05_smith_tideman_tiers.
+Print Assumptions C05_tideman_first_in_winner_set.
 Print Assumptions C05_smith_benham.
 Print Assumptions C05_smith_benham_refuted.
+Print Assumptions C05_single_candidate.
+Print Assumptions C05_single_candidate_repair_conservative.
 Print Assumptions C05_hybrid_fuel.
